@@ -6,12 +6,15 @@ from .kinds import emit_kind, option_space, parse_kind, table_for
 
 def case_base(op, kind, ir, feat, opts):
     base = {"op": op, "kind": kind}
+    if kind in ("rest", "numpydoc", "google"):
+        base["style"] = kind
     base.update({k: v for k, v in opts.items()})
     base.update(case_flags(feat))
     base["case_wrappable_entry"] = any(
         len(p.get("doc") or "") + len(str(p.get("default", ""))) + 24 > 96
         for p in list(ir["params"].values()) + list((ir.get("returns") or {}).values())
     )
+    base["summary_class"] = feat["summary_class"]
     base.update(n_params=feat["n_params"], has_kwargs=feat["kwargs"], has_return=feat["has_return"])
     return base
 
